@@ -15,6 +15,8 @@ CLAIMED = {
  "C06": ("OnlyRelayers (accepted updates/receives only from registered signers, per the real registry), AckRelayerField, RejectNoChange and ClientsOnlyByUpdate are evaluated by TLC on every replayed real step.", XNOTE + " Privileged contract methods and TSS clients are not yet covered by this check (planned extension)."),
  "C07": ("TMClient.tla (the client's acceptance rule with tendermint's adjacent / non-adjacent verification transcribed, pruning, update, proof gate) is model-checked by TLC for AcceptedIsSound, StoresExactly, LatestMonotone, RejectChangesNothing, ExpiredAcceptsNothing, MetaForCons; TLC-generated header sequences (validator sets and power splits, signer subsets, trusted heights, back-filling, wrong revision, clock positions) are instantiated as real signed tendermint headers and submitted to the real client; TLC judges every real step with the same operators on the real client store and checks the proof gate for every height.",
          "Validator universe of 3 with powers 1..3, six validator sets, heights 2..6, trust level 1/3, trusting period 3, drift 1, delay 1 (hours). Signature checking inside tendermint's light package is trusted."),
+ "C10": ("ETHClient.tla transcribes verifyHeader/update/RestrictChain loop by loop; TLC checks NeverWedged, AncestryRoots, AcceptedHasStoredParent, HeadIsLast, OnlyRuleAbiding over every submission order of two header trees (7 and 11 headers, including siblings with equal state roots); TLC-generated submission orders are replayed with real Ethereum headers on the real client and TLC judges every real step (NeverWedged on the real acceptance decision, AncestryRoots on the raw client store), plus conformance of index / root-main / consensus states / head.",
+         "Rinkeby chain id (no proof-of-work); only the timestamp mutant is in the universe; pruning of expired consensus states is not exercised (large trusting period)."),
  "C11": ("Aggregate.tla (registry, governance actions, both conversion directions for module-owned and external pairs, misbehaving token contracts, self-destruct clean-up) is model-checked by TLC for BackedModuleOwned, BackedExternal, NonNegative and RejectChangesNothing; on every replayed real step TLC evaluates the backing invariants, Gate, ExactCoinToToken/ExactTokenToCoin and RejectNoChange (digest of the aggregate, bank and evm stores) on the real bank/ERC-20 state.",
          "Bounds of the exhaustive run: 2 coins, 1 module contract, 2 external contracts, amount 1, balance 2. BackedExternal excludes pairs whose address governance replaced. Contracts' byte code is trusted as compiled in the repository."),
  "C12": ("Findable, NoDangling, NoSharing, UniqueIds, StillConvertible over all sequences of register-coin, add-coin, register-ERC20, toggle, update-address, parameter change, self-destruct clean-up and conversions are checked by TLC on Aggregate.tla, and evaluated by TLC on the RAW content of the three aggregate store prefixes of the real application after every replayed step (plus KeyIsId and RejectNoChange).",
